@@ -101,7 +101,7 @@ impl<'a> Parser<'a> {
     #[inline]
     fn parse_expr(&mut self, precedence: Precedence) -> Result<Expr, ParseError> {
         let mut left = match self.current_token {
-            Token::Int(s) => self.parse_int_expression(s),
+            Token::Int(s) => self.parse_int_expression(s)?,
             Token::Float(s) => self.parse_float_expression(s),
             Token::True => self.parse_bool_expression(true),
             Token::False => self.parse_bool_expression(false),
@@ -282,10 +282,14 @@ impl<'a> Parser<'a> {
     }
 
     #[inline]
-    fn parse_int_expression(&mut self, strval: &str) -> Expr {
+    fn parse_int_expression(&mut self, strval: &str) -> Result<Expr, ParseError> {
         self.advance();
-        Expr::Int {
-            value: strval.parse().unwrap(),
+        // integers are 61 bits wide; a literal is never negative (the sign is a prefix operator)
+        match strval.parse::<isize>() {
+            Ok(value) if value <= crate::object::MAX_INT => Ok(Expr::Int { value }),
+            _ => Err(ParseError::SyntaxError(format!(
+                "het getal {strval} is te groot voor een geheel getal"
+            ))),
         }
     }
 
